@@ -16,6 +16,7 @@ import Biogo.Model.ContWorld
 import Biogo.Proofs.Containers
 import Biogo.Proofs.ContFrame
 import Biogo.Proofs.ContAln
+import Biogo.Proofs.ContSepWorld
 
 namespace Biogo.Properties.C05
 open Biogo.Alphabet Biogo.Containers Biogo.Go
@@ -285,5 +286,89 @@ theorem clone_deep_alignment (cx : Ctx) (h : Cells) (a : Aln) (n : Nat) (hw : Co
 theorem history_observes_runOps (cx : Ctx) (w : World) (ops : List Op) :
     ∃ res, (runHistory cx w ops).getLast? = some (res, (runOps cx w ops).view cx) :=
   runHistory_last cx w ops
+
+/-! ### Clone is deep — every container kind, every operation of the C05 and C07 histories
+
+`WorldWF w`: every object of the world is well formed (its slices lie with their capacity inside
+allocated backing arrays; the rows of a multi / the columns of a column-stored alignment are in
+pairwise different arrays; all columns of an alignment have `Rows()` entries), different objects
+own different backing arrays, and no caller-owned buffer lies in an array an object owns.
+`Op.written op` is the object `op` is applied to (`none` for `Clone`, `Subseq`, and the
+operations on caller buffers).  `viewObj` is the complete observation the driver compares:
+per row `Start`, `End`, strand, name, kind and `At` over the span; `Column(p, true)`,
+`ColumnQL(p, true)`, `Column(p, false)` for every position of the span; the consensus letters. -/
+
+/-- the initial object of **every** history (linear, column-stored alignment, multi, set) is
+    well formed -/
+theorem initial_object_wellformed (cx : Ctx) (kind : String) (strand : Int) (rows : List SeqSpec) :
+    WorldWF (initWorld cx kind strand rows) :=
+  initWorld_wf cx kind strand rows
+
+/-- one operation of the histories — any of `RevComp`, `Reverse`, `Clone`, `Set`, row
+    `RevComp`/`Reverse`, `AppendColumns`, `AppendEach`, `Add`, `Delete`, `Flush`, `Truncate`,
+    `Subseq`, creation and mutation of a caller buffer — on any kind of object keeps the world
+    well formed and leaves every object it is not applied to, and its complete observation,
+    unchanged -/
+theorem operation_is_local (cx : Ctx) (w : World) (hw : WorldWF w) (op : Op) :
+    WorldWF (apply cx w op).1 ∧
+    ∀ (j : Nat) (oj : Obj), op.written ≠ some j → w.objs[j]? = some oj →
+      (apply cx w op).1.objs[j]? = some oj ∧
+      viewObj cx (apply cx w op).1.cells oj = viewObj cx w.cells oj :=
+  step_all cx w hw op
+
+/-- **frame, all container kinds**: in a well-formed world — column-stored `alignment.Seq/QSeq`
+    included, and with caller-owned buffers — whatever sequence of operations of the C05 and C07
+    histories is applied to *other* objects or to caller buffers, an object stays the same and
+    its complete observation stays the same. -/
+theorem untouched_object_unchanged_all (cx : Ctx) (w : World) (hw : WorldWF w) (ops : List Op)
+    (j : Nat) (oj : Obj) (hj : w.objs[j]? = some oj) (hnot : ∀ op ∈ ops, op.written ≠ some j) :
+    (runOps cx w ops).objs[j]? = some oj ∧
+    viewObj cx (runOps cx w ops).cells oj = viewObj cx w.cells oj :=
+  untouched_all cx ops w hw j oj hj hnot
+
+/-- **clone_deep, all container kinds, all histories.**  Let object `k` — a `linear.Seq/QSeq`, a
+    `multi.Multi` or a column-stored `alignment.Seq/QSeq` — be cloned in a well-formed world (the
+    copy is object `n = w.objs.length`).  (a) The complete observation of the copy equals that of
+    the original.  (b) After any sequence of operations of the C05 and C07 histories none of
+    which is applied to the original, the original is observed exactly as before — whatever is
+    written through the copy, through other objects or through caller buffers.  (c) After any
+    sequence none of which is applied to the copy, the copy is observed as the original was when
+    it was cloned.  (The hypothesis `WorldWF` holds of every reachable state:
+    `initial_object_wellformed`, `operation_is_local`.) -/
+theorem clone_deep_all (cx : Ctx) (w : World) (hw : WorldWF w) (k : Nat) (o : Obj)
+    (hk : w.objs[k]? = some o) (hclonable : ∀ m, o ≠ .set m) (ops : List Op) :
+    let w1 := (apply cx w (.clone k)).1
+    ∃ c, w1.objs[w.objs.length]? = some c ∧ viewObj cx w1.cells c = viewObj cx w.cells o ∧
+      ((∀ op ∈ ops, op.written ≠ some k) →
+        (runOps cx w1 ops).objs[k]? = some o ∧
+        viewObj cx (runOps cx w1 ops).cells o = viewObj cx w.cells o) ∧
+      ((∀ op ∈ ops, op.written ≠ some w.objs.length) →
+        (runOps cx w1 ops).objs[w.objs.length]? = some c ∧
+        viewObj cx (runOps cx w1 ops).cells c = viewObj cx w.cells o) := by
+  intro w1
+  obtain ⟨c, hc, hobs⟩ := clone_view_equal cx w hw k o hk hclonable
+  obtain ⟨hw1, hoth1⟩ := step_all cx w hw (.clone k)
+  obtain ⟨hk1, hko⟩ := hoth1 k o (by simp [Op.written]) hk
+  refine ⟨c, hc, hobs, ?_, ?_⟩
+  · intro hnot
+    have r := untouched_all cx ops w1 hw1 k o hk1 hnot
+    exact ⟨r.1, r.2.trans hko⟩
+  · intro hnot
+    have r := untouched_all cx ops w1 hw1 w.objs.length c hc hnot
+    exact ⟨r.1, r.2.trans hobs⟩
+
+-- non-vacuity: a quality alignment of two rows and three columns is cloned; the copy's row 0 is
+-- reverse-complemented, a row is deleted from it and a column appended to it from a caller
+-- buffer that is mutated afterwards; the original is observed exactly as at the start
+example :
+    let cx : Ctx := { comp := fun l => l, gap := 45, amb := 110,
+                      alpha := ⟨[], 0, fun _ => false, fun _ => -1, 45, 110, false⟩, grow := growExact }
+    let w0 := initWorld cx "qaln" 1 [⟨true, 0, 1, 0, [⟨65, 30⟩, ⟨67, 31⟩, ⟨71, 32⟩]⟩,
+                                    ⟨true, 0, 1, 1, [⟨71, 20⟩, ⟨71, 21⟩, ⟨84, 22⟩]⟩]
+    let w := runOps cx w0 [.clone 0, .rowRevComp 1 0, .delete 1 1, .mkbuf [⟨84, 9⟩] 0, .appendCols 1 [0],
+                           .mutbuf 0 0 ⟨67, 1⟩]
+    ((w.objs.map fun o => (viewObj cx w.cells o).rows.map fun r => (r.strand, r.cells.map (·.L)))
+        = [[(1, [65, 67, 71]), (1, [71, 71, 84])], [(-1, [71, 67, 65, 84])]]) ∧
+    (w0.objs.map (viewObj cx w0.cells)) = (w.objs.take 1).map (viewObj cx w.cells) := by decide
 
 end Biogo.Properties.C05
